@@ -8,9 +8,14 @@ PROP = {
                   "http.Handler, identical raw HTTP/3 clients, one synctest bubble on simnet (overlapping-request part: simnet in "
                   "real time with a logical clock); accepted-auth decided by the authenticator fake's event log"),
     "jobs": [
+        # real-time parts first: they decide "never answered" on a logical clock; a server defect of that kind
+        # freezes the bubble parts (a goroutine waiting on a mutex is not durably blocked)
+        job("realtime", "core", "./internal/integration_tests/", "integration_tests",
+            [KIT, "harness/core/internal/integration_tests/c02_masq_test.go"], "^TestVerifC02(Repeat|Overlap)$",
+            ["c02-repeat", "c02-overlap"], race=False, timeout_quick=600, timeout_thorough=1800),
         job("masq", "core", "./internal/integration_tests/", "integration_tests",
-            [KIT, "harness/core/internal/integration_tests/c02_masq_test.go"], "^TestVerifC02",
-            ["c02-matrix", "c02-scripts", "c02-overlap"], race=False, timeout_quick=600, timeout_thorough=3600),
+            [KIT, "harness/core/internal/integration_tests/c02_masq_test.go"], "^TestVerifC02(Matrix|Scripts)$",
+            ["c02-matrix", "c02-scripts"], race=False, timeout_quick=600, timeout_thorough=1800),
     ],
     "min_events": 2000,
     "rule": ("Each world = one real Hysteria server (MasqHandler = nil or a deterministic custom web application that "
@@ -44,10 +49,23 @@ PROP = {
              "server did not -> server:request-stalled-behind-pending-auth. After release every response (overlapping and the "
              "rejected auth itself) is compared with the reference as above and the authenticator log must contain exactly the "
              "one pending call. Real time only orchestrates; 30 s watchdogs yield inconclusive. "
+             "Part c02-repeat (real time, same logical clock, runs first): sequences on ONE unauthenticated connection of 2..4 POST "
+             "hysteria/auth with rejected credentials (header sets none / auth / full / CC-RX garbage / padding) shuffled with "
+             "0..4 ordinary or near-miss requests, sent one after the other to the connection and its reference twin; a request "
+             "the reference has answered and the Hysteria server has not while 2x40 round trips completed on an untouched "
+             "connection to each server -> server:request-never-answered; otherwise compared with the reference as above; "
+             "census: one Authenticate call per auth-shaped request with its credential, none else. "
+             "Long-lived unauthenticated connections (bubble parts, free on virtual time): scripts contain quiet periods of 11 s "
+             "or 24 s (below QUIC's 30 s idle timeout, at most one between two requests), every matrix connection one of 11 s, "
+             "and the custom handler has a mode that sends its body in two flushes 12 s apart; the reference gets the same "
+             "treatment, the differential oracle decides (a connection closed under a masquerade client shows as "
+             "server:masq-no-response). A frozen bubble (no request completes for 150 s real time: some goroutine waits "
+             "non-durably, e.g. on a server mutex) is reported inconclusive with the goroutine dump, never as a verdict. "
              "evaluation = one request / stream / datagram action; non-trivial = a "
              "compared request; distinct = distinct (handler, authenticated?, method, host, path, header set, mode, body)."),
     "assumptions": [
         "quic-go's http3.Server with the same handler is the definition of 'the response the handler gives on a plain web server'",
+        "repeat part: same logical clock as the overlap part decides 'never answered' (no wall-clock threshold)",
         "matrix/scripts parts: requests on one connection are sequential, so authenticator events logged while a request is in flight belong to it",
         "overlap part: a request that the reference answers and the Hysteria server does not answer during 2x40 sequential round trips on another connection of the same process, while the auth request is verifiably still pending, counts as stalled (no wall-clock threshold)",
         "absence of datagrams / stray authenticator calls is observed until virtual quiescence plus 1 s virtual settle",
